@@ -107,3 +107,56 @@ class CFG:
             for hn in self.try_stack[-1]: self.edge(j, hn)
             return j
         return self.exit_raise
+
+
+def reaching_defs(fn, name, use_node, _cache={}):
+    """assignment statements to `name` (Assign/AugAssign/For/With targets) that reach the statement containing use_node;
+    contains None if the function entry reaches it without a definition (parameter or undefined)"""
+    key = id(fn)
+    if key not in _cache:
+        g = CFG(fn)
+        preds = {}
+        for nd in g.nodes:
+            for s_, _l in nd.succ:
+                preds.setdefault(s_.id, []).append(nd)
+        _cache[key] = (g, preds, fn)
+    g, preds, _ = _cache[key]
+    st = use_node
+    while not isinstance(st, ast.stmt):
+        st = st._parent
+    # the CFG node of the statement: for compound statements the test / iter node carries the expression
+    start = [nd for nd in g.nodes if nd.ast is st or (nd.kind == 'test' and any(x is use_node for x in ast.walk(nd.ast)))]
+    if not start:
+        # statement nested in a compound one that the CFG keeps whole (with / def): climb
+        p = getattr(st, '_parent', None)
+        while p is not None and not start:
+            start = [nd for nd in g.nodes if nd.ast is p]
+            p = getattr(p, '_parent', None)
+
+    def assigns(nd):
+        a = nd.ast
+        if nd.kind == 'stmt' and isinstance(a, (ast.Assign, ast.AugAssign, ast.AnnAssign)):
+            tg = a.targets if isinstance(a, ast.Assign) else [a.target]
+            return any(isinstance(x, ast.Name) and x.id == name for t in tg for x in ast.walk(t))
+        if nd.kind == 'iter':
+            return any(isinstance(x, ast.Name) and x.id == name for x in ast.walk(a.target))
+        return False
+    out = set()
+    seen = set()
+    work = []
+    for nd in start:
+        work += preds.get(nd.id, [])
+    while work:
+        nd = work.pop()
+        if nd.id in seen:
+            continue
+        seen.add(nd.id)
+        if assigns(nd):
+            out.add(nd.ast)
+            continue
+        if nd.kind == 'entry':
+            out.add(None)
+            continue
+        work += preds.get(nd.id, [])
+    return out
+
